@@ -295,14 +295,22 @@ func c14Check(r *vcore.Run) vcore.Coverage {
 	mini := alphabetConfig{Repos: []string{"r"}, Blobs: []int{1, 2}, Manifests: []int{0, 1, 3, 4, 8}, Tags: []string{"t"}, Deletes: true, UntaggedToo: true}
 	run("Immutable-wrapper/mini-fixpoint", func() vstate.System[Op] { return newImmutableWrapperSys(r, u, mini) }, 40, nil, 10*time.Minute)
 	run("immutable-tags/mini-fixpoint", func() vstate.System[Op] { return newImmutableTagsSys(r, u, mini) }, 40, nil, 10*time.Minute)
+	// concurrent histories of immutable-tags mode: every schedule of small thread programs
+	conc := c14Concurrent(r)
+	states += conc.Execs
+	trans += conc.Points
+	exhaustive = exhaustive && conc.Complete
+	r.Notes["concurrent_harnesses"] = conc.Notes
+	r.Notes["concurrent_schedules"] = conc.Execs
+	r.Notes["concurrent_schedules_with_preemption"] = conc.Preempted
 	r.Notes["runs"] = notes
 	r.Assume = []string{
 		"monitors observe tags through ResolveTag and GetTag after every transition; 'observed' means observed by the harness sweep",
 		"closure of a tag is computed by the reference model from the stored bytes, each manifest interpreted by its own media type; subjects are not part of the required closure",
-		"concurrent histories of immutable-tags mode are covered by C08's schedule exploration, not here",
+		"concurrent histories of immutable-tags mode: <= 3 controlled threads of <= 2 operations over one tag-bearing repository; directed harnesses over all schedules, generated programs with <= 2 preemptions; oracle = linearizability against the reference model in immutable mode plus the final sweep",
 	}
 	return vcore.Coverage{States: states, Transitions: trans, TracesImpl: trans, Evaluations: trans, Nontrivial: states, Exhaustive: exhaustive,
-		Rule: "BFS over operation histories through ocifilter.Immutable(ocimem), through ocimem in immutable-tags mode (with the reference model) and, for ReadOnly, probing every mutating call in every reached backend state; history monitors on every transition; closed mini-universes explored to fixpoint; non-trivial = distinct states"}
+		Rule: "BFS over operation histories through ocifilter.Immutable(ocimem), through ocimem in immutable-tags mode (with the reference model) and, for ReadOnly, probing every mutating call in every reached backend state; history monitors on every transition; closed mini-universes explored to fixpoint; concurrent part: 7 directed immutable-tags harnesses over all schedules + generated 2-thread programs (thorough: 3 threads) with <= 2 preemptions under the cooperative scheduler, each schedule checked for linearizability against the immutable-mode reference model; non-trivial = distinct states + schedules"}
 }
 
 func c14Replay(r *vcore.Run, sub string, raw json.RawMessage) {
@@ -312,6 +320,10 @@ func c14Replay(r *vcore.Run, sub string, raw json.RawMessage) {
 	}
 	u := newUniverse()
 	var s *regSys
+	if sub == "sched" {
+		c08Replay(r, sub, raw)
+		return
+	}
 	switch sub {
 	case "immutable":
 		s = newImmutableWrapperSys(r, u, c14Config(u, true))
